@@ -150,3 +150,205 @@ def is_sorted_use(fn, call):
         if n["type"] == "MemberExpression" and unparen(n["object"]) is call:
             return n["property"].get("value") in ("sort", "length")
     return False
+
+
+# ---------------------------------------------------------------------------
+# intraprocedural taint (values derived from the `input` parameter)
+
+ITER_METHODS = ("filter", "map", "forEach", "some", "every", "find", "reduce", "flatMap", "findIndex")
+
+
+def fn_params(fn):
+    out = []
+    for p in fn.get("params", []):
+        pat = p.get("pat", p)
+        if pat.get("type") == "AssignmentPattern":
+            pat = pat["left"]
+        if pat.get("type") == "Identifier":
+            out.append(pat["value"])
+        elif pat.get("type") == "ObjectPattern":
+            for pp in pat["properties"]:
+                if pp["type"] == "AssignmentPatternProperty":
+                    out.append(pp["key"]["value"])
+                elif pp["type"] == "KeyValuePatternProperty" and pp["value"].get("type") == "Identifier":
+                    out.append(pp["value"]["value"])
+        elif pat.get("type") == "ArrayPattern":
+            for el in pat["elements"]:
+                if el and el.get("type") == "Identifier":
+                    out.append(el["value"])
+        else:
+            out.append(None)
+    return out
+
+
+class Taint:
+    """binding-precise taint inside one function: a binding is (name, region); an identifier resolves to the
+    innermost binding of its name whose region contains it"""
+
+    def __init__(self, fn, sources):
+        self.fn = fn
+        self.bindings = []   # dict(name, lo, hi, tainted)
+        fspan = fn["span"]
+        for p in fn_params(fn):
+            if p:
+                self.bindings.append({"name": p, "lo": fspan["start"], "hi": fspan["end"], "t": p in sources, "kind": "param"})
+        self._collect(fn.get("body"), (fspan["start"], fspan["end"]))
+        self._fix()
+
+    def _collect(self, n, region):
+        if isinstance(n, list):
+            for x in n:
+                self._collect(x, region)
+            return
+        if not isinstance(n, dict):
+            return
+        t = n.get("type")
+        if t == "BlockStatement":
+            region = (n["span"]["start"], n["span"]["end"])
+        if t in ("ForOfStatement", "ForInStatement", "ForStatement"):
+            r2 = (n["span"]["start"], n["span"]["end"])
+            left = n.get("left") or n.get("init")
+            if isinstance(left, dict) and left.get("type") == "VariableDeclaration":
+                for d in left["declarations"]:
+                    for b in binders(d["id"]):
+                        self.bindings.append({"name": b, "lo": r2[0], "hi": r2[1], "t": False, "kind": "loop", "node": n, "decl": d})
+            for k, v in n.items():
+                if k not in ("span", "left") and isinstance(v, (dict, list)):
+                    self._collect(v, r2)
+            if n.get("init") is not None and t == "ForStatement":
+                pass
+            return
+        if t == "VariableDeclarator":
+            for b in binders(n["id"]):
+                self.bindings.append({"name": b, "lo": region[0], "hi": region[1], "t": False, "kind": "var", "node": n})
+        if t in ("ArrowFunctionExpression", "FunctionExpression", "FunctionDeclaration"):
+            r2 = (n["span"]["start"], n["span"]["end"])
+            for p in fn_params(n):
+                if p:
+                    self.bindings.append({"name": p, "lo": r2[0], "hi": r2[1], "t": False, "kind": "cbparam", "node": n})
+            self._collect(n.get("body"), r2)
+            return
+        if t == "CatchClause":
+            r2 = (n["span"]["start"], n["span"]["end"])
+            if n.get("param"):
+                for b in binders(n["param"]):
+                    self.bindings.append({"name": b, "lo": r2[0], "hi": r2[1], "t": False, "kind": "catch"})
+            self._collect(n.get("body"), r2)
+            return
+        for k, v in n.items():
+            if k not in ("span", "ctxt") and isinstance(v, (dict, list)):
+                self._collect(v, region)
+
+    def resolve(self, ident):
+        pos = ident["span"]["start"]
+        best = None
+        for b in self.bindings:
+            if b["name"] == ident["value"] and b["lo"] <= pos < b["hi"]:
+                if best is None or (b["hi"] - b["lo"]) <= (best["hi"] - best["lo"]):
+                    best = b
+        return best
+
+    def mentions(self, e):
+        for n in walk(e):
+            if n["type"] == "Identifier":
+                b = self.resolve(n)
+                if b is not None and b["t"]:
+                    return True
+        return False
+
+    def _mark(self, b):
+        if not b["t"]:
+            b["t"] = True
+            return True
+        return False
+
+    def _fix(self):
+        changed = True
+        while changed:
+            changed = False
+            for b in self.bindings:
+                if b["t"]:
+                    continue
+                if b["kind"] == "var":
+                    n = b["node"]
+                    if n.get("init") is not None and self.mentions(n["init"]):
+                        changed |= self._mark(b)
+                elif b["kind"] == "loop":
+                    n = b["node"]
+                    src = n.get("right")
+                    if src is not None and self.mentions(src):
+                        changed |= self._mark(b)
+                elif b["kind"] == "cbparam":
+                    cb = b["node"]
+                    # is this callback the argument of an iteration method on a tainted receiver?
+                    for c in walk(self.fn):
+                        if c["type"] == "CallExpression":
+                            mc = method_call(c)
+                            if mc and mc[1] in ITER_METHODS and any(unparen(a) is cb for a in mc[2]) and self.mentions(mc[0]):
+                                if fn_params(cb)[:1] == [b["name"]] or (mc[1] == "reduce" and b["name"] in fn_params(cb)[:2]):
+                                    changed |= self._mark(b)
+            for n in walk(self.fn):
+                if n["type"] == "AssignmentExpression" and n["left"]["type"] == "Identifier" and self.mentions(n["right"]):
+                    b = self.resolve(n["left"])
+                    if b is not None:
+                        changed |= self._mark(b)
+
+    def names(self):
+        return {b["name"] for b in self.bindings if b["t"]}
+
+
+def mentions(e, T):
+    if isinstance(T, Taint):
+        return T.mentions(e)
+    for n in walk(e):
+        if n["type"] == "Identifier" and n["value"] in T:
+            return True
+    return False
+
+
+def taint(fn, sources):
+    return Taint(fn, set(sources))
+
+
+def binders(pat):
+    t = pat.get("type")
+    if t == "Identifier":
+        return [pat["value"]]
+    out = []
+    if t == "ArrayPattern":
+        for el in pat["elements"]:
+            if el:
+                out += binders(el)
+    elif t == "ObjectPattern":
+        for pp in pat["properties"]:
+            if pp["type"] == "AssignmentPatternProperty":
+                out.append(pp["key"]["value"])
+            elif pp["type"] == "KeyValuePatternProperty":
+                out += binders(pp["value"])
+            elif pp["type"] == "RestElement":
+                out += binders(pp["argument"])
+    elif t == "RestElement":
+        out += binders(pat["argument"])
+    elif t == "AssignmentPattern":
+        out += binders(pat["left"])
+    return out
+
+
+def in_try_with_handler(root, node):
+    """is `node` inside the block of a TryStatement (within root) that has a catch handler?"""
+    for n in walk(root):
+        if n["type"] == "TryStatement" and n.get("handler") is not None:
+            if any(x is node for x in walk(n["block"])):
+                return True
+    return False
+
+
+def family_methods(fam, names):
+    """[(class name, method name, function node)] for concrete bodies of the given method names"""
+    out = []
+    for cname, c in sorted(fam.classes.items()):
+        for mname in names:
+            m = c.methods.get(mname)
+            if m and m["function"].get("body") is not None:
+                out.append((cname, mname, m["function"]))
+    return out
